@@ -480,6 +480,10 @@ class Interp(ExprMixin):
             return app('dot', P(recv), P(args[0]))
         if name == 'copy' and not args:
             return app('copy', P(recv))
+        if name in ('any', 'all') and not args and not kwargs and isinstance(recv, (Poly, Tup)):
+            return HANDLERS['numpy.' + name](self, st, [recv], {}, node)
+        if name in ('min', 'max') and isinstance(recv, Tup) and not args and not kwargs:
+            return HANDLERS['numpy.' + name](self, st, [recv], {}, node)
         if name in ('sum', 'min', 'max') and isinstance(recv, Poly):
             nm = {'sum': 'sum', 'min': 'amin', 'max': 'amax'}[name]
             return app(nm, recv, *[P(a) for a in args], **kwargs)
